@@ -84,6 +84,14 @@ CHECKS = {
         note="Trusted: third-party codecs decode what they encode (exercised); property-value codec not modelled; index-based source serialization exercised in-process and across processes (sources loaded first); "
              "registry half tied by the C03 correspondence (as_obj histories).",
         design="5/C04"),
+    "C08": dict(
+        technique="Lean 4 proof: model of the PatternDefInterpreter-built matcher graph (capture bookkeeping, sequence tail split, ctx threading, multi matcher) = recursive specification over the pattern syntax tree; regex engine and content equality are parameters + differential correspondence on (pattern text, node) incl. cache histories",
+        text="Theorems (every accepted pattern, value, context): run = spec (verdict, capture dict = the very objects, definition error for unbound variable impossible after compile), failure => empty dict, "
+             "capture names unique, MultiPatternMatcher returns the first matching rule, tail length exact, naming a sequence keeps its tail. Correspondence: pattern texts generated from the grammar "
+             "(class alternatives/subclasses, *, 0-4 field specs, nesting <= 3, sequences of every length with/without tail vs tuples shorter/equal/longer, captures everywhere, variables, twins with other origins), "
+             "each case with cold cache, warm cache and after unrelated compilations in shuffled order; regexes restricted to a sub-language the driver implements.",
+        note="Trusted: Python `re` (abstract parameter in the theorems; sub-language engine in the driver), lark re-modelled by a hand-written scanner-less parser; don't-cares of DESIGN 4.1 (sequence vs str field, regex vs node/tuple value, float/int through $var).",
+        design="5/C08"),
     "C09": dict(
         technique="Lean 4 proof: implementation-shaped accept / _transform_children / generic_visit model = nearest-MRO dispatch and bottom-up rewrite spec; identity of unchanged subtrees, new ancestors of changes + differential correspondence with generated visitor classes",
         text="Theorems (all trees, all rule tables): dispatch = nearest class in the MRO (strict: own class only), transform = bottom-up rewrite T, unchanged subtree is the "
@@ -141,6 +149,14 @@ CHECKS = {
              "lists the tag first and the rest sorted; with tag suppression no nested mapping carries a tag; by default every object except No* placeholders / index references does; explorer dialect lists child fields.",
         note="Trusted: mashumaro hook protocol; model tied by correspondence (sequences of 2-6 calls, every option subset, failures at every nested position).",
         design="5/C16"),
+    "C17": dict(
+        technique="Lean 4 proof: the model parsers (xpath and pattern: lexer + recursive descent mirroring lark's contextual lexer/LALR) accept every rendering of every well-formed syntax tree with arbitrary whitespace between tokens and return its denotation; totality of the real entry points decided by outcome-class correspondence on derived, mutated and random texts",
+        text="Theorems: parse_render / pattern_accepts_rendering / pattern_ws_irrelevant (full pattern grammar incl. escaped strings), accepts_wellformed (interpreter checks: node classes, compiling regexes, fresh capture names, variables after captures), "
+             "xpath_accepts_rendering / xpath_relative / xpath_ws_irrelevant / xlex_render (all digits significant), compile_total. Partial by nature: 'no other exception escapes' and the agreement of validate_pattern / from_pattern "
+             "(cold, cached) / MultiPatternMatcher are facts about Python exception flow and caches, decided by the correspondence: outcome class in {ok + behaviour probes, definition error, OTHER} on grammar-derived texts, single-token mutations, "
+             "unknown / non-node class names and random strings over the grammar alphabet.",
+        note="Trusted: lark LALR + contextual lexer re-modelled by hand (a disagreement on garbage input would be a false alarm of the check, to be fixed in the model); Python `re` compile; whitespace only between tokens and after the last one.",
+        design="5/C17"),
     "C20": dict(
         technique="Lean 4 proof: legacy dfs/bfs/gather loops simulate the C05 loops (start node offered like any position), legacy xpath match = `sat` via the C07 reversal theorem, calculate_xpath spells chains + differential correspondence on legacy trees",
         text="Theorems: ldfs/lbfs/lgather = [start offered to filter/prune] ++ C05 spec (skip_self: exactly the C05 spec), legacy match = documented semantics along the parent chain (all index digits), "
